@@ -52,10 +52,18 @@ def gen_spec(seed):
                      role=rng.choice("RW"), src=rng.choice("BbHhIiqQ"))
                 for _ in range(rng.randint(1, 3))]
     key = members(rng.randint(1, 3))
+    big_value = rng.random() < 0.35       # value structure larger than the key
+    if big_value:
+        key = [rng.choice("IiHh")] + ([rng.choice("bB")] if rng.random() < .5
+                                      else [])
     if sum(struct.calcsize(f) for f in key) == 1:
         key = [rng.choice("hHiI")] + key   # keep the Dict's map apart from
     return dict(seed=seed,               # the 1-byte-key variable map
-                hashvars=hashvars, key=key, value=members(rng.randint(1, 3)),
+                hashvars=hashvars, key=key,
+                value=(sorted([rng.choice("qQ"), rng.choice("IiqQ"),
+                               rng.choice(FMTS)],
+                              key=lambda f: -struct.calcsize(f))
+                       if big_value else members(rng.randint(1, 3))),
                 lru=rng.random() < 0.2, in_base=rng.random() < 0.3,
                 modify=rng.random() < 0.5)
 
